@@ -289,6 +289,21 @@ StopAfterReturn == stopn = 1 => loop.pc = "ret"
 \* C11/C13 (FixStop): no handler is still running inside the session when Stop runs
 StopAfterHandlers == stopn = 1 => HandlersQuiet
 
+\* ---- reachability goals (test generation): TLC is asked to refute "the goal is never reached"; the
+\* counterexample is a behaviour leading into the situation, which the harness replays on the real ServeConn.
+\* A flushed request's handler has returned late (its completion was dropped or it gave up) while a later
+\* request that reuses its tag is still being handled - and then the connection fails.
+\* (the goal state is the late return itself; the driver appends a pause and the connection failure)
+GoalStaleThenFault ==
+  \E i, j \in Ids : /\ i # j /\ req[i].kind = "req" /\ req[j].kind = "req" /\ req[i].tag = req[j].tag
+                     /\ act.a = "h.done" /\ act.i = i /\ i \in cancelled /\ h[j] = "run" /\ tags[req[j].tag] = j
+NeverStaleThenFault == ~GoalStaleThenFault
+\* A request is being handled, a flush of it is in the reader's hands, and the connection fails
+GoalFlushRacesFault ==
+  \E i, f \in Ids : /\ req[f].kind = "flush" /\ req[i].kind = "req" /\ req[f].old = req[i].tag /\ h[i] = "run"
+                     /\ rdr.pc = "offer" /\ rdr.r = f /\ act.a \in {"fault.write", "fault.ctx"}
+NeverFlushRacesFault == ~GoalFlushRacesFault
+
 \* liveness
 \* C11: serving returns once the connection is closed or the context cancelled
 ShutdownPrompt == (closed \/ ctxc) ~> (loop.pc = "ret")
